@@ -423,6 +423,32 @@ def make_origin_anchored_case(seed, fmt="glyf_colr_0"):
             "family": "origin-anchored"}
 
 
+def make_shared_gradient_case(seed, fmt="picosvg"):
+    """glyphs that share NO outline (so they end up in different OT-SVG documents) but use identical gradient definitions"""
+    import random
+
+    r = random.Random(seed)
+    x1, y1, x2, y2 = r.randint(5, 30), r.randint(5, 30), r.randint(60, 95), r.randint(60, 95)
+    lin = (f'<linearGradient id="a" gradientUnits="userSpaceOnUse" x1="{x1}" y1="{y1}" x2="{x2}" y2="{y2}">'
+           '<stop offset="0" stop-color="#ff0000"/><stop offset="1" stop-color="#0000ff"/></linearGradient>')
+    rad = (f'<radialGradient id="b" gradientUnits="userSpaceOnUse" cx="{r.randint(40, 60)}" cy="{r.randint(40, 60)}" r="{r.randint(30, 50)}">'
+           '<stop offset="0" stop-color="#ffcc00"/><stop offset="1" stop-color="#00aa00"/></radialGradient>')
+    shapes = ["M10,10 L60,15 L35,70 Z", "M20,20 L80,20 L80,55 L20,55 Z", "M50,8 L92,40 L75,90 L25,90 L8,40 Z", "M15,60 L85,60 L85,95 L15,95 Z"]
+    r.shuffle(shapes)
+    n = r.choice([2, 3, 4])
+    svgs = []
+    for k in range(n):
+        fills = ["url(#a)", "url(#b)"] if k % 2 == 0 else ["url(#b)", "url(#a)"]
+        body = f'<path d="{shapes[k]}" fill="{fills[0]}"/>'
+        if r.random() < 0.5:
+            body += f'<path d="M{40 + k},{42 + k} L{60 + k},{42 + k} L{50 + k},{58 + 2 * k} Z" fill="{fills[1]}"/>'
+        svgs.append(f'<svg xmlns="http://www.w3.org/2000/svg" viewBox="0 0 100 100"><defs>{lin}{rad}</defs>{body}</svg>')
+    cfg = {"color_format": fmt, "upem": 1024, "ascender": 950, "descender": -250, "width": r.choice([0, 1275]),
+           "reuse_tolerance": 0.1, "keep_glyph_names": r.random() < 0.5, "clipbox_quantization": None}
+    return {"id": f"shared-gradient:{fmt}:{seed}", "seed": seed, "fmt": fmt, "svgs": svgs, "config": cfg,
+            "codepoints": [[0xE000 + k] for k in range(n)], "family": "shared-gradient"}
+
+
 # ------------------------------------------------------------------------------------------
 # Build through the real pipeline
 # ------------------------------------------------------------------------------------------
